@@ -19,6 +19,17 @@ CLAIMED["C01"] = (
     "trusts the reference matcher internal/model/match.go (written from the statement) and Go's regexp for segment admission; only registrations the statement obliges the router to accept are used",
     "DESIGN.md section 4 C01")
 
+CLAIMED["C02"] = (
+    "rapid-generated route sets biased to binds + constructed paths with escapes, oracle = validity predicate (exhaustive search for an alignment/split explaining the reported values) and match->URLPath round trip",
+    "For every dispatched request the reported bind values are checked against the route that actually won: some alignment of route segments to path segments and some split of each regex segment must exist in which literals match literally, each piece matches its own expression in full and decodes once to the reported value (so several legal splits are all accepted); Leaf.URLPath(values, form) must rebuild the decoded path; the handler must see the same values plus route=<canonical text>.",
+    "trusts Go's regexp for 'matches its own expression in full', an own percent-decoder, and the reference parser for the canonical text; user expressions come from a pool without look-around assertions",
+    "DESIGN.md section 4 C02")
+CLAIMED["C08"] = (
+    "rapid-generated registration histories with named invalidating operators, oracle = three-valued registration validity model (MUST_REJECT / MUST_ACCEPT / EITHER) + reachability of accepted routes through the reference matcher",
+    "Histories of accepted registrations followed by a candidate built by one of 16 operators named after the clauses of C08 are replayed on Flame.Route and route.AddRoute; the model's verdict must agree with 'panicked now / did not', every accepted route must serve its own instances (long and short form) through the reference matcher's winner, and no request may panic after any history, including after a rejected registration.",
+    "trusts the validity model internal/model/registrar.go (written from the clause list of C08) and regexp.Compile for 'does not compile'; shapes the statement does not classify are EITHER",
+    "DESIGN.md section 4 C08")
+
 PENDING = {}
 
 def main():
